@@ -89,17 +89,34 @@ def writer_table(fb):
     return table, it
 
 
+def reader_bodies(fb):
+    """HIR of the cell reader: Cell::set_attributes and the private Cell helpers it hands the work to."""
+    root = CELL + "::set_attributes"
+    out = [fb.hir[root]]
+    seen = {root}
+    work = [root]
+    while work:
+        d = work.pop()
+        for c in hirq.called_defs(fb.hir[d]["body"]):
+            if c not in seen and c in fb.hir and c.startswith(CELL + "::") and fb.mir.get(c, {}).get("vis") != "pub" and c.split("::")[-1] not in ("write_to",):
+                seen.add(c)
+                out.append(fb.hir[c])
+                work.append(c)
+    return out
+
+
 def reader_table(fb):
     """t literal -> list of crate methods called in that arm of Cell::set_attributes (+ the inlineStr test)."""
     h = fb.hir[CELL + "::set_attributes"]
     best = None
-    for m, rows in hirq.match_tables(h["body"]):
-        lits = set()
-        for ls, arm in rows:
-            for l in ls or []:
-                lits.add(l)
-        if len(lits & set(SPEC.ST_CELL_TYPE)) >= 3:
-            best = (m, rows)
+    for hb in reader_bodies(fb):
+        for m, rows in hirq.match_tables(hb["body"]):
+            lits = set()
+            for ls, arm in rows:
+                for l in ls or []:
+                    lits.add(l)
+            if len(lits & set(SPEC.ST_CELL_TYPE)) >= 3:
+                best = (m, rows)
     table = {}
     if best:
         for ls, arm in best[1]:
@@ -209,15 +226,15 @@ def rule_kind_table(chk, fb):
         if kind in ("String", "RichText") and t != "s":
             pass
     # bool literal agreement: writer's TRUE digit == reader's compared literal
-    h = fb.hir[CELL + "::set_attributes"]
     rlit = None
-    for m, rows in hirq.match_tables(h["body"]):
-        for ls, arm in rows:
-            if ls and "b" in ls:
-                for x in hirq.walk(arm["body"]):
-                    r = hirq.eq_literal_test(x) if x.get("k") == "bin" else None
-                    if r:
-                        rlit = r[1]
+    for hb in reader_bodies(fb):
+        for m, rows in hirq.match_tables(hb["body"]):
+            for ls, arm in rows:
+                if ls and "b" in ls:
+                    for x in hirq.walk(arm["body"]):
+                        r = hirq.eq_literal_test(x) if x.get("k") == "bin" else None
+                        if r:
+                            rlit = r[1]
     wdigits = None
     for (kind, f), row in W.items():
         if kind == "Bool" and f == 0 and row["payload"]:
@@ -383,7 +400,7 @@ def rule_key(chk, fb):
     ru = chk.rule(
         "C01.d.use",
         "the table is looked up and filled by the full key: every key passed to the shared-string table's map (get / insert / contains_key / entry) derives from the content-key function of the item, not from a part of the content",
-        floor=3,
+        floor=2,
     )
     ITEM = "structs::shared_string_item::SharedStringItem"
     TBL = "structs::shared_string_table::SharedStringTable"
@@ -405,6 +422,39 @@ def rule_key(chk, fb):
             chk.ob(ru, "%s:%s#%d" % (d.split("::", 2)[-1], t["fn"].split("::")[-1], n), full, where="%s:%s" % (b["file"], t["ln"]),
                    detail="key derives from %s" % sorted(a[1].split("::")[-1] for a in at if a[0] == "call" and not a[1].startswith(("std::", "core::", "<"))))
             n += 1
+    # the index handed out for a new string is its position in the item list
+    ri = chk.rule(
+        "C01.d.index",
+        "a new string's index is its position: every number the shared-string table stores in its map or returns from the interning function derives from the length of the ITEM LIST (taken before the append) or from the map's stored values - never from the size of the map, which is smaller when the loaded table holds duplicates",
+        floor=2,
+    )
+    for d, b in sorted(fb.mir.items()):
+        root = d.split("::{closure")[0]
+        if fb.mir.get(root, {}).get("self_ty") != TBL or root != d:
+            continue
+        fl = Flow(fb, b)
+        sinks = []
+        for bi, t in fl.calls(lambda t: t.get("fn", "").split("::")[-1] == "insert" and ("HashMap" in t["fn"] or "VacantEntry" in t["fn"] or "Entry" in t["fn"])):
+            recv = fl.atoms(t["args"][0])
+            if ("field", TBL, "map") in recv and len(t["args"]) >= 2:
+                sinks.append(("stored", t, t["args"][-1]))
+        if fb.ty(b["locals"][0]["t"]) == "usize" and any(x[0] == "stored" for x in sinks):
+            sinks.append(("returned", {"ln": b["line"]}, {"p": {"l": 0}}))
+        for kind, t, op in sinks:
+            at = fl.atoms(op)
+            lens = [a for a in at if a[0] == "call" and a[1].split("::")[-1] == "len"]
+            from_items = from_map = False
+            for a in lens:
+                ra_ = fl.atoms(b["blocks"][a[2]]["t"]["args"][0])
+                if ("field", TBL, "shared_string_item") in ra_:
+                    from_items = True
+                if ("field", TBL, "map") in ra_ and ("field", TBL, "shared_string_item") not in ra_:
+                    from_map = True
+            counter = bool(at) and all(a[0] == "const" or (a[0] == "field" and a[1] == "tuple") for a in at)  # a running count kept beside the appends
+            from_items = from_items or counter
+            chk.touch(d)
+            chk.ob(ri, "%s:%s" % (d.split("::", 2)[-1], kind), from_items and not from_map, where="%s:%s" % (b["file"], t.get("ln")),
+                   detail="index %s: from the item list's length (or a running count of the appends): %s; from the map's size: %s" % (kind, from_items, from_map))
     for adt, fn, exc in targets:
         d = "%s::%s" % (adt, fn)
         if d not in fb.mir or adt not in fb.adts:
@@ -436,6 +486,9 @@ def run(chk, fb, tier):
     rule_kind_table(chk, fb)
     rule_escape(chk, fb)
     rule_key(chk, fb)
+    from props import C06
+
+    C06.rule_variants(chk, fb, "C01.a.variants")
     chk.assume("a 64-bit content hash stands in for equality of shared strings (collision-free)")
     chk.assume("quick-xml's BytesText::new / partial_escape / unescape are mutually inverse on the characters they handle")
     chk.note("not decided: identity of f64 through Display/parse, Unicode fidelity through quick-xml, equality of reloaded cell sets (value-level round trip)")
